@@ -160,11 +160,31 @@ def gen_history(rng, cfg=None):
                 first_edits = first_edits + [{'m': 'flip', 'p': full, 'pos': rng.randrange(0, 30), 'bit': 1},
                                              {'m': 'manifest', 'p': fresh['p'], 'entries': fresh['entries']}]
                 special_hashes = list(ce['hashes'])
+    # targeted prior state: a sub-Manifest refreshed out of band (its parents keep the old MANIFEST entry) and a
+    # sub-directory update somewhere else, in a directory whose entries live in one of those parents
+    force_path = None
+    if prior != 'absent' and rng.random() < cfg.get('p_sibling_oob', 0.1):
+        subs = [m for m in manifests if '/' in m['p'] and any(e.get('tag') in ('DATA', 'MISC', 'EBUILD') and 'hashes' in e for e in m['entries'])]
+        if subs:
+            sib = rng.choice(subs)
+            sdir = os.path.dirname(sib['p'])
+            fe = rng.choice([e for e in sib['entries'] if e.get('tag') in ('DATA', 'MISC', 'EBUILD') and 'hashes' in e])
+            mdirs_ = set(os.path.dirname(m['p']) for m in manifests)
+            cand = [d for d in info['dirs'] if d and not any(c.startswith('.') for c in d.split('/'))
+                    and d not in mdirs_ and not GT.psw(d, sdir) and not GT.psw(sdir, d)]
+            if cand:
+                force_path = rng.choice(cand)
+                first_edits = first_edits + [{'m': 'rewrite', 'p': sdir + '/' + fe['path'], 'c': GT.rand_content(rng)},
+                                             {'m': 'manifest', 'p': sib['p'], 'entries': sib['entries']},
+                                             {'m': 'add', 'p': force_path + '/oob-new', 'k': 'file', 'c': GT.rand_content(rng)}]
     rounds = []
     nr = rng.choice([1, 1, 2, 2, 3, 4])
     for i in range(nr):
         eds = first_edits if i == 0 else gen_edits(rng, info, rng.choice([0, 1, 2, 3]))
         u = gen_update_opts(rng, info, prior if i == 0 else 'exact', allow_sub=cfg.get('allow_sub', True))
+        if force_path is not None and i == 0:
+            u['path'] = force_path
+            u.pop('create', None)
         if special_hashes and i == 0:
             u['hashes'] = special_hashes      # the requested set equals the existing one: nothing else is dirty
             u.pop('force', None)
